@@ -1,3 +1,168 @@
 import Cutadapt.Files
+/-! # C19 — the output format is determined by the file name; interleaving is pairing of consecutive records
+
+Model: `Cutadapt.Files`. Compression codecs, dnaio's readers/writers and multi-member gzip are libraries: "the container is
+transparent" is validated by the command-line matrix of the check, not proved. -/
 namespace Cutadapt.C19
+open Cutadapt.Files
+
+/-- the chosen format does not depend on the number of cores (proxied writers) -/
+theorem format_independent_of_proxy (path : String) (ff q : Bool) :
+    outputFormat path ff q true = outputFormat path ff q false := rfl
+
+/-- the output format is determined by the file name when the name says so -/
+theorem format_by_name (path : String) (ff q prox : Bool) (f : Fmt) (h : formatFromPath path = some f) (hp : path ≠ "-") :
+    outputFormat path ff q prox = f := by
+  unfold outputFormat
+  have : (path == "-") = false := by simpa using hp
+  simp [this, h]
+
+/-- `--fasta` forces FASTA on standard output -/
+theorem fasta_forced_on_stdout (q prox : Bool) : outputFormat "-" true q prox = .fasta := by
+  simp [outputFormat]
+
+/-- otherwise the input format decides -/
+theorem format_fallback (path : String) (ff q prox : Bool) (h : formatFromPath path = none) (hs : path ≠ "-" ∨ ff = false) :
+    outputFormat path ff q prox = (if q then .fastq else .fasta) := by
+  unfold outputFormat
+  rcases hs with hp | hf
+  · have : (path == "-") = false := by simpa using hp
+    simp [this, h]
+  · simp [hf, h]
+
+theorem isSuffixOf_append_self (e n : List Char) : e.isSuffixOf (n ++ e) = true := by
+  simp [List.isSuffixOf]
+
+/-- two compression suffixes: if one is a suffix of a name ending in the other, they are the same suffix -/
+theorem suffix_clash (n e e' : List Char) (he : e ∈ compressionSuffixes) (he' : e' ∈ compressionSuffixes)
+    (h : e'.isSuffixOf (n ++ e) = true) : e' = e := by
+  have h1 : e' <:+ n ++ e := List.isSuffixOf_iff_suffix.mp h
+  have h2 : e <:+ n ++ e := List.suffix_append n e
+  have hc : e' <:+ e ∨ e <:+ e' := by
+    by_cases hl : e'.length ≤ e.length
+    · exact Or.inl (List.suffix_of_suffix_length_le h1 h2 hl)
+    · exact Or.inr (List.suffix_of_suffix_length_le h2 h1 (by omega))
+  simp only [compressionSuffixes, List.mem_cons, List.mem_nil_iff, or_false] at he he'
+  rcases he with rfl | rfl | rfl | rfl <;> rcases he' with rfl | rfl | rfl | rfl <;>
+    first
+      | rfl
+      | (exfalso; rcases hc with hc | hc <;> exact absurd (List.isSuffixOf_iff_suffix.mpr hc) (by decide))
+
+theorem find_first {β : Type} (l : List β) (p : β → Bool) (x : β) (hx : x ∈ l) (hp : p x = true)
+    (huniq : ∀ y ∈ l, p y = true → y = x) : l.find? p = some x := by
+  induction l with
+  | nil => simp at hx
+  | cons a l ih =>
+    by_cases ha : p a = true
+    · have := huniq a (by simp) ha
+      subst this
+      simp [List.find?, hp]
+    · have hne : a ≠ x := by intro h; rw [h] at ha; exact ha hp
+      have hx' : x ∈ l := by
+        rcases List.mem_cons.mp hx with h | h
+        · exact absurd h.symm hne
+        · exact h
+      have ha' : p a = false := by simpa using ha
+      simp only [List.find?, ha']
+      exact ih hx' (fun y hy => huniq y (List.mem_cons_of_mem _ hy))
+
+theorem strip_append (n e : List Char) (he : e ∈ compressionSuffixes) : stripCompression (n ++ e) = n := by
+  unfold stripCompression
+  have hfind : compressionSuffixes.find? (fun e' => e'.isSuffixOf (n ++ e)) = some e :=
+    find_first compressionSuffixes _ e he (isSuffixOf_append_self e n) (fun e' h' h => suffix_clash n e e' he h' h)
+  rw [hfind]
+  simp
+
+/-- the decision is the same for every compression suffix: `name.ext.gz`, `.xz`, `.bz2`, `.zst` are treated like
+    `name.ext` (for a name that does not itself end in a compression suffix) -/
+theorem format_independent_of_compression_suffix (n e : List Char) (he : e ∈ compressionSuffixes)
+    (hn : ∀ e' ∈ compressionSuffixes, e'.isSuffixOf n = false) :
+    formatFromChars (n ++ e) = formatFromChars n := by
+  have h1 : stripCompression (n ++ e) = n := strip_append n e he
+  have h2 : stripCompression n = n := by
+    unfold stripCompression
+    have : compressionSuffixes.find? (fun e' => e'.isSuffixOf n) = none := by
+      rw [List.find?_eq_none]; intro x hx; rw [hn x hx]; simp
+    rw [this]
+  unfold formatFromChars
+  rw [h1, h2]
+
+/-- `.fasta` / `.fa` mean FASTA and `.fastq` / `.fq` mean FASTQ, before any compression suffix -/
+theorem fasta_names (n : List Char) (hn : ∀ e' ∈ compressionSuffixes, e'.isSuffixOf (n ++ ".fasta".toList) = false) :
+    formatFromChars (n ++ ".fasta".toList) = some .fasta := by
+  have h2 : stripCompression (n ++ ".fasta".toList) = n ++ ".fasta".toList := by
+    unfold stripCompression
+    have : compressionSuffixes.find? (fun e' => e'.isSuffixOf (n ++ ".fasta".toList)) = none := by
+      rw [List.find?_eq_none]; intro x hx; rw [hn x hx]; simp
+    rw [this]
+  unfold formatFromChars
+  rw [h2]
+  simp [isSuffixOf_append_self]
+
+theorem fastq_names (n : List Char) (hn : ∀ e' ∈ compressionSuffixes, e'.isSuffixOf (n ++ ".fastq".toList) = false) :
+    formatFromChars (n ++ ".fastq".toList) = some .fastq := by
+  have h2 : stripCompression (n ++ ".fastq".toList) = n ++ ".fastq".toList := by
+    unfold stripCompression
+    have : compressionSuffixes.find? (fun e' => e'.isSuffixOf (n ++ ".fastq".toList)) = none := by
+      rw [List.find?_eq_none]; intro x hx; rw [hn x hx]; simp
+    rw [this]
+  unfold formatFromChars
+  rw [h2]
+  have hq := isSuffixOf_append_self ".fastq".toList n
+  have hnot : ∀ (e : List Char), e ∈ [".fasta".toList, ".fa".toList, ".fna".toList] → e.isSuffixOf (n ++ ".fastq".toList) = false := by
+    intro e hmem
+    cases hh : e.isSuffixOf (n ++ ".fastq".toList) with
+    | false => rfl
+    | true =>
+      exfalso
+      have s1 : e <:+ n ++ ".fastq".toList := List.isSuffixOf_iff_suffix.mp hh
+      have s2 : ".fastq".toList <:+ n ++ ".fastq".toList := List.suffix_append _ _
+      have hl : e.length ≤ ".fastq".toList.length := by
+        simp only [List.mem_cons, List.mem_nil_iff, or_false] at hmem
+        rcases hmem with rfl | rfl | rfl <;> decide
+      have := List.isSuffixOf_iff_suffix.mpr (List.suffix_of_suffix_length_le s1 s2 hl)
+      simp only [List.mem_cons, List.mem_nil_iff, or_false] at hmem
+      rcases hmem with rfl | rfl | rfl <;> exact absurd this (by decide)
+  have n1 := hnot ".fasta".toList (by simp)
+  have n2 := hnot ".fa".toList (by simp)
+  have n3 := hnot ".fna".toList (by simp)
+  show (if (".fasta".toList.isSuffixOf (n ++ ".fastq".toList) || ".fa".toList.isSuffixOf (n ++ ".fastq".toList) ||
+      ".fna".toList.isSuffixOf (n ++ ".fastq".toList)) = true then some Fmt.fasta
+    else if (".fastq".toList.isSuffixOf (n ++ ".fastq".toList) || ".fq".toList.isSuffixOf (n ++ ".fastq".toList)) = true
+      then some Fmt.fastq else none) = some Fmt.fastq
+  rw [n1, n2, n3, hq]
+  rfl
+
+/-! ## Interleaving -/
+
+/-- an interleaved file gives the same pair stream as the two de-interleaved files, and writing interleaved is the
+    interleaving of the two-file outputs -/
+theorem deinterleave_interleave (ps : List (α × α)) : deinterleave (interleave ps) = some ps := by
+  induction ps with
+  | nil => rfl
+  | cons p ps ih => obtain ⟨a, b⟩ := p; simp [interleave, deinterleave, ih]
+
+theorem interleave_unzip (ps : List (α × α)) :
+    deinterleave (interleave ps) = some ((ps.map Prod.fst).zip (ps.map Prod.snd)) := by
+  rw [deinterleave_interleave]
+  congr 1
+  induction ps with
+  | nil => rfl
+  | cons p ps ih => simp [← ih]
+
+theorem interleave_length (ps : List (α × α)) : (interleave ps).length = 2 * ps.length := by
+  induction ps with
+  | nil => rfl
+  | cons p ps ih => obtain ⟨a, b⟩ := p; simp [interleave, ih]; omega
+
+/-! Non-vacuity -/
+example : formatFromChars "out.fasta.gz".toList = some .fasta := by decide
+example : formatFromChars "reads.fq.zst".toList = some .fastq := by decide
+example : formatFromChars "out.txt".toList = none := by decide
+#guard outputFormat "out.fasta.gz" false true true == .fasta
+#guard outputFormat "reads.FQ.zst" false false false == .fastq
+#guard outputFormat "out.txt" false true false == .fastq
+#guard outputFormat "-" true true false == .fasta
+example : ∀ e' ∈ compressionSuffixes, e'.isSuffixOf "out.fasta".toList = false := by decide
+
 end Cutadapt.C19
